@@ -289,31 +289,55 @@ def analyse_class(chk, prog, mod, cls, ser_name="as_dict", require_code=True):
 
 
 def registry_classes(mod):
+    """-> (class names, explicit {code: class name} table or None).  Two equivalent forms are
+    understood: the list ALL_CLASSES registered by a loop `ALL_CLASS_DICT[cls.code] = cls`, and an
+    explicit dict literal ALL_CLASS_DICT = {"code": Class, ...} (ALL_CLASSES derived from it)."""
+    d = mod.assigns.get("ALL_CLASS_DICT")
+    if isinstance(d, ast.Dict) and d.keys:
+        table = {}
+        for k, v in zip(d.keys, d.values):
+            if not (isinstance(k, ast.Constant) and isinstance(k.value, str) and isinstance(v, ast.Name)):
+                raise core.AnalysisError("ALL_CLASS_DICT literal has a non-literal entry")
+            table[k.value] = v.id
+        return list(table.values()), table
     v = mod.assigns.get("ALL_CLASSES")
     if not isinstance(v, (ast.List, ast.Tuple)):
-        raise core.AnalysisError("ALL_CLASSES is no longer a literal list in %s" % mod.rel)
+        raise core.AnalysisError("neither a literal ALL_CLASSES list nor a literal ALL_CLASS_DICT in %s" % mod.rel)
     names = []
     for e in v.elts:
         if not isinstance(e, ast.Name):
             raise core.AnalysisError("ALL_CLASSES has a non-name element")
         names.append(e.id)
-    return names
+    return names, None
 
 
 def rule_registry(chk, prog):
     mod = prog.module(TD)
-    names = registry_classes(mod)
+    names, table = registry_classes(mod)
     chk.count("registered map classes", len(names))
-    # registration statement: ALL_CLASS_DICT[cls.code] = cls inside a loop over ALL_CLASSES
-    found = False
-    for st in mod.ast.body:
-        if isinstance(st, ast.For) and pf.src(st.iter) == "ALL_CLASSES":
-            for n in ast.walk(st):
-                if isinstance(n, ast.Assign) and pf.src(n.targets[0]).startswith("ALL_CLASS_DICT["):
-                    if pf.src(n.targets[0].slice) == "%s.code" % pf.src(st.target) and pf.src(n.value) == pf.src(st.target):
-                        found = True
-    if not found:
-        raise core.AnalysisError("registration loop `ALL_CLASS_DICT[cls.code] = cls` not found")
+    if table is not None:
+        # explicit table: the key a class is registered under must be the code its as_dict writes
+        for code, nm in table.items():
+            cls = mod.cls(nm)
+            ca = prog.find_class_attr(mod, cls, "code")
+            ccode = ca[2].value if ca and isinstance(ca[2], ast.Constant) else None
+            if ccode != code:
+                chk.violation("code-table", TD, nm, "registry key %r -> %s" % (code, nm), cls.lineno,
+                              "ALL_CLASS_DICT registers %s under %r but the class writes code %r: a saved %s "
+                              "reloads as %s" % (nm, code, ccode, nm, table.get(ccode, "an error")))
+            else:
+                chk.ok("code-table", "registry key %r == %s.code" % (code, nm))
+    else:
+        # registration statement: ALL_CLASS_DICT[cls.code] = cls inside a loop over ALL_CLASSES
+        found = False
+        for st in mod.ast.body:
+            if isinstance(st, ast.For) and pf.src(st.iter) == "ALL_CLASSES":
+                for n in ast.walk(st):
+                    if isinstance(n, ast.Assign) and pf.src(n.targets[0]).startswith("ALL_CLASS_DICT["):
+                        if pf.src(n.targets[0].slice) == "%s.code" % pf.src(st.target) and pf.src(n.value) == pf.src(st.target):
+                            found = True
+        if not found:
+            raise core.AnalysisError("registration loop `ALL_CLASS_DICT[cls.code] = cls` not found")
     codes = {}
     for nm in names:
         cls = mod.cls(nm)
@@ -531,6 +555,85 @@ def rule_dangling(chk, prog):
                                          "format for this class" % n.func.attr)
 
 
+
+def rule_falsy_default(chk, prog):
+    """`d.get(K) or dflt` / `d[K] or dflt` in a from_dict: a legitimately falsy stored value (0, 0.0,
+    False, empty tuple) is replaced by the default on reload."""
+    n_inst = 0
+    for rel in (TD, XE, XE2, AN):
+        mod = prog.modules.get(rel)
+        if mod is None:
+            continue
+        for cname, cls in mod.classes.items():
+            fd = pf.methods(cls).get("from_dict")
+            if fd is None or not fd.args.args:
+                continue
+            dname = fd.args.args[-1].arg
+            ser = pf.methods(cls).get("as_dict") or pf.methods(cls).get("to_dict")
+            written = dict_of_return(ser) if ser is not None else None
+            for n in pf.walk_no_nested(fd):
+                kr = key_read(n, dname)
+                if kr is None:
+                    continue
+                n_inst += 1
+                par = pf.parent(n)
+                if isinstance(par, ast.BoolOp) and isinstance(par.op, ast.Or) and par.values[0] is n \
+                        and (written is None or kr[0] in written):
+                    chk.violation("falsy-default", rel, cname + ".from_dict", pf.src(par), n.lineno,
+                                  "key %r is written by the serialiser, but `... or default` replaces a stored "
+                                  "falsy value (0, False, empty) by the default: the reloaded object differs" % kr[0])
+                else:
+                    chk.ok("falsy-default", "%s.from_dict reads %r verbatim" % (cname, kr[0]), nontrivial=False)
+    chk.count("from_dict key reads", n_inst)
+
+
+LOADERS = [(MU, "load_cider_model"), (TD, "FeatureList.load"), (XE, "XCEvalSerializable.load"),
+           (AN, "ElectronAnalyzer.load")]
+
+
+def rule_load_fresh(chk, prog):
+    """A loader must deserialise the file it is given in this call: serving objects from process-level
+    mutable state keyed by the file name returns a stale model after the file changed."""
+    for rel, qual in LOADERS:
+        mod = prog.module(rel)
+        fn = mod.func(qual)
+        fns, todo = [], [fn]
+        while todo:
+            f_ = todo.pop()
+            if any(f_ is g_ for g_ in fns):
+                continue
+            fns.append(f_)
+            for c_ in pf.walk_no_nested(f_):
+                if isinstance(c_, ast.Call) and isinstance(c_.func, ast.Name) and c_.func.id in mod.functions:
+                    todo.append(mod.functions[c_.func.id])
+        persistent = {k for k, v in mod.assigns.items()
+                      if isinstance(v, (ast.Dict, ast.List, ast.Set)) or (
+                          isinstance(v, ast.Call) and pf.call_name(v) in ("dict", "list", "set", "OrderedDict",
+                                                                          "collections.OrderedDict", "WeakValueDictionary"))}
+        bad = None
+        for f_ in fns:
+            for n in pf.walk_no_nested(f_):
+                root = None
+                if isinstance(n, ast.Subscript) and isinstance(n.ctx, ast.Load):
+                    root = pf.base_name(n.value)
+                elif isinstance(n, ast.Call) and isinstance(n.func, ast.Attribute) and n.func.attr in ("get", "setdefault", "pop"):
+                    root = pf.base_name(n.func.value)
+                if root in persistent and root not in ("ALL_CLASS_DICT",):
+                    bad = (n, root, f_)
+            for dec in f_.decorator_list:
+                if "cache" in pf.src(dec):
+                    bad = (dec, pf.src(dec), f_)
+        inst = "%s:%s reads the file on every call" % (rel, qual)
+        if bad:
+            n, root, f_ = bad
+            chk.violation("load-fresh", rel, qual, "%s" % root, getattr(n, "lineno", fn.lineno),
+                          "the loader serves objects from the process-level container/cache `%s` (in %s): after "
+                          "the file is overwritten a second load returns the stale object" % (root, f_.name),
+                          instance=inst)
+        else:
+            chk.ok("load-fresh", inst)
+
+
 def analyse(chk):
     tree = chk.tree
     prog = pf.Program(tree, [TD, XE, XE2, MU, AN])
@@ -573,10 +676,15 @@ def analyse(chk):
     chk.guard(rule_reject, prog)
     chk.guard(rule_loader, prog)
     chk.guard(rule_dangling, prog)
+    chk.rule("falsy-default", "from_dict never replaces a stored falsy value by a default (`d.get(k) or x`)")
+    chk.rule("load-fresh", "loaders deserialise the given file on every call (no process-level memo)")
+    chk.guard(rule_falsy_default, prog)
+    chk.guard(rule_load_fresh, prog)
     chk.floor("code-table", 15, "21 registered map classes")
     chk.floor("attr-loop", 40, "ctor parameters of 21 maps + SplineSetEvaluator + analyzer keys")
     chk.floor("state-coverage", 30, "attributes read by fill_feat_/fill_deriv_/bounds")
     chk.floor("reject", 3, "registry dispatch, model-format ladder(s), analyzer-type ladder")
+    chk.floor("load-fresh", 3, "four loaders")
     chk.floor("loader", 2, "FeatureList.load, XCEvalSerializable.load, load_cider_model")
     chk.assumptions += [
         "evaluation is a deterministic function of the attributes restored by from_dict",
@@ -605,6 +713,10 @@ def mutants(tree):
         Mutant("spline const not restored", XE, 'const=d["const"],', "", expect="attr-loop"),
         Mutant("bounds stored under other attr", TD, 'self._bounds = bounds or (0, 1)\n\n    @property\n    def bounds(self):\n        return self._bounds',
                'self._bounds = bounds or (0, 1)\n\n    @property\n    def bounds(self):\n        return (0, 1)', expect=None),
+        Mutant("falsy default in from_dict", TD, 'return cls(d["i"], bounds=d.get("bounds"))', 'return cls(d["i"] or 1, bounds=d.get("bounds"))', expect="falsy-default"),
+        Mutant("analyzer grid level falls back", AN, '"grids_level": d["grids_level"],', '"grids_level": d.get("grids_level") or 3,', expect="falsy-default"),
+        Mutant("loader memo", TD, '    @classmethod\n    def load(cls, fname):\n        with open(fname, "r") as f:\n            d = yaml.load(f, Loader=yaml.Loader)\n        return cls.from_dict(d)',
+               '    @classmethod\n    def load(cls, fname):\n        if fname in _LOADED:\n            return _LOADED[fname]\n        with open(fname, "r") as f:\n            d = yaml.load(f, Loader=yaml.Loader)\n        _LOADED[fname] = cls.from_dict(d)\n        return _LOADED[fname]\n\n\n_LOADED = {}', expect="load-fresh"),
         Mutant("unregister a map", TD, "    SLDMap,\n    OmegaMap,", "    OmegaMap,", expect="code-table"),
     ]
 
